@@ -20,7 +20,7 @@ THEOREMS = [
     "c11_parse_render", "c11_exactly_one_terminal", "c11_failure_only_synthesised", "c11_success_passthrough",
     "c11_json_body_messages", "c11_sse_body_messages", "c11_no_id_for_notification", "c11_failures_independent",
     "c11_every_request_processed", "c11_session_header_latest", "c11_repeated_failures",
-    "c11_batch_invalid_member_skipped", "c11_encoding_twins",
+    "c11_batch_invalid_member_skipped", "c11_encoding_twins", "c11_method_irrelevant",
 ]
 # not stated by the property text (Props/C11Supp.lean): reported as INFO, never a verdict
 SUPP_THEOREMS = [
